@@ -54,13 +54,23 @@ def prefix(e):
         return "%s %d %d %s" % (k, e[1], e[2], prefix(e[3]))
     if k == "T":
         return "T %d %d %d %s" % (e[1], e[2], e[3], prefix(e[4]))
+    if k == "H":
+        return "H %d %d %d" % (e[1], 1 if e[2] else 0, e[3])
+    if k in ("RX", "RY", "RZ"):
+        return "%s %d %s" % (k, e[1], prefix(e[2]))
+    if k in ("MX", "MY", "MZ"):
+        return "%s %s" % (k, prefix(e[1]))
+    if k == "TR":
+        return "TR %d %d %d %s" % (e[1] + (prefix(e[2]),))
     return "%s %d %s" % (k, len(e[1]), " ".join(prefix(x) for x in e[1]))
 
 
 def pretty(e):
     k = e[0]
     if k == "B":
-        return "[%d%d%d-%d%d%d]" % (e[1] + e[2])
+        if all(0 <= x <= 9 for x in e[1] + e[2]):
+            return "[%d%d%d-%d%d%d]" % (e[1] + e[2])
+        return "[%d,%d,%d:%d,%d,%d]" % (e[1] + e[2])
     if k in ("+", "-", "^"):
         return "(%s%s%s)" % (pretty(e[1]), k, pretty(e[2]))
     if k in ("S0", "S1"):
@@ -69,6 +79,12 @@ def pretty(e):
         return "%s%s%d(%s)" % (k, "xyz"[e[1]], e[2], pretty(e[3]))
     if k == "T":
         return "T%s%s%d(%s)" % ("xyz"[e[1]], "+" if e[2] > 0 else "-", e[3], pretty(e[4]))
+    if k in ("RX", "RY", "RZ"):
+        return "R%s%d(%s)" % (k[1].lower(), e[1], pretty(e[2]))
+    if k in ("MX", "MY", "MZ"):
+        return "M%s(%s)" % (k[1].lower(), pretty(e[1]))
+    if k == "TR":
+        return "Tr%+d%+d%+d(%s)" % (e[1] + (pretty(e[2]),))
     return "%s(%s)" % (k, ",".join(pretty(x) for x in e[1]))
 
 
@@ -91,7 +107,8 @@ def parse_pretty(s):
     def e():
         c = peek()
         if c == "[":
-            m = re.match(r"\[(\d)(\d)(\d)-(\d)(\d)(\d)\]", s[pos[0]:])
+            m = re.match(r"\[(\d)(\d)(\d)-(\d)(\d)(\d)\]", s[pos[0]:]) or \
+                re.match(r"\[(-?\d+),(-?\d+),(-?\d+):(-?\d+),(-?\d+),(-?\d+)\]", s[pos[0]:])
             pos[0] += m.end()
             g = [int(x) for x in m.groups()]
             return ("B", tuple(g[:3]), tuple(g[3:]))
@@ -121,6 +138,30 @@ def parse_pretty(s):
             a = e()
             eat(")")
             return (k, ax, off, a)
+        if c == "R":
+            eat("R")
+            ax = peek().upper()
+            pos[0] += 1
+            k = num()
+            eat("(")
+            a = e()
+            eat(")")
+            return ("R" + ax, k, a)
+        if c == "M":
+            eat("M")
+            ax = peek().upper()
+            pos[0] += 1
+            eat("(")
+            a = e()
+            eat(")")
+            return ("M" + ax, a)
+        if s[pos[0]:pos[0] + 2] == "Tr":
+            eat("Tr")
+            m = re.match(r"([+-]\d+)([+-]\d+)([+-]\d+)\(", s[pos[0]:])
+            pos[0] += m.end()
+            a = e()
+            eat(")")
+            return ("TR", tuple(int(x) for x in m.groups()), a)
         if c == "T":
             eat("T")
             ax = "xyz".index(peek())
@@ -153,24 +194,121 @@ def prog_key(e, mode):
     return "lattice-program:" + hashlib.sha1(can.encode()).hexdigest()[:12], can
 
 
+XFORMS = ("RX", "RY", "RZ", "MX", "MY", "MZ", "TR")
+
+
+def children(e):
+    k = e[0]
+    if k in ("B", "H"):
+        return []
+    if k in ("BA", "BI", "BS"):
+        return list(e[1])
+    if k in ("RX", "RY", "RZ", "TR"):
+        return [e[2]]
+    if k in ("MX", "MY", "MZ"):
+        return [e[1]]
+    if k in ("P0", "P1"):
+        return [e[3]]
+    if k == "T":
+        return [e[4]]
+    return [e[1], e[2]]
+
+
 def depth(e):
+    cs = children(e)
+    if not cs:
+        return 0
+    return (0 if e[0] in XFORMS else 1) + max(depth(x) for x in cs)
+
+
+def has_xform(e):
+    return e[0] in XFORMS or any(has_xform(x) for x in children(e))
+
+
+# ---- lattice isometries p -> M p + t (M a signed permutation matrix) and the spec-side push-down
+ID3 = ((1, 0, 0), (0, 1, 0), (0, 0, 1))
+
+
+def iso_of(e):
+    """(M, t) of a transform node, as Manifold::Rotate / Mirror / Translate define them."""
+    k = e[0]
+    if k == "TR":
+        return ID3, tuple(e[1])
+    if k in ("MX", "MY", "MZ"):
+        a = "XYZ".index(k[1])
+        return tuple(tuple((-1 if (i == j == a) else (1 if i == j else 0)) for j in range(3)) for i in range(3)), (0, 0, 0)
+    c, sn = [(1, 0), (0, 1), (-1, 0), (0, -1)][e[1] % 4]
+    if k == "RX":      # y' = c y - s z ; z' = s y + c z
+        return ((1, 0, 0), (0, c, -sn), (0, sn, c)), (0, 0, 0)
+    if k == "RY":      # x' = c x + s z ; z' = -s x + c z
+        return ((c, 0, sn), (0, 1, 0), (-sn, 0, c)), (0, 0, 0)
+    return ((c, -sn, 0), (sn, c, 0), (0, 0, 1)), (0, 0, 0)
+
+
+def iso_apply(g, p):
+    M, t = g
+    return tuple(sum(M[i][j] * p[j] for j in range(3)) + t[i] for i in range(3))
+
+
+def iso_compose(g, h):          # g after h
+    (M, t), (N, u) = g, h
+    return (tuple(tuple(sum(M[i][k] * N[k][j] for k in range(3)) for j in range(3)) for i in range(3)), iso_apply(g, u))
+
+
+def iso_inverse(g):
+    M, t = g
+    Mt = tuple(tuple(M[j][i] for j in range(3)) for i in range(3))
+    return Mt, tuple(-sum(Mt[i][j] * t[j] for j in range(3)) for i in range(3))
+
+
+def pushdown(e, g=(ID3, (0, 0, 0))):
+    """The same solid as a transform-free program: g(A op B) = g(A) op g(B), the image of a lattice box / axis half-space
+    under a lattice isometry is a lattice box / axis half-space.  Plane operations become intersections with H leaves."""
     k = e[0]
     if k == "B":
-        return 0
+        a, b = iso_apply(g, e[1]), iso_apply(g, e[2])
+        return ("B", tuple(min(x, y) for x, y in zip(a, b)), tuple(max(x, y) for x, y in zip(a, b)))
+    if k == "H":
+        M, t = g
+        ax, greater, off = e[1], e[2], e[3]
+        i = next(r for r in range(3) if M[r][ax] != 0)
+        sgn = M[i][ax]
+        return ("H", i, greater if sgn > 0 else (not greater), sgn * off + t[i])
+    if k in XFORMS:
+        return pushdown(children(e)[0], iso_compose(g, iso_of(e)))
+    if k in ("P0", "P1"):
+        return ("^", pushdown(e[3], g), pushdown(("H", e[1], k == "P0", e[2]), g))
+    if k == "T":
+        h = ("H", e[1], True, e[3]) if e[2] > 0 else ("H", e[1], False, -e[3])
+        return ("^", pushdown(e[4], g), pushdown(h, g))
     if k in ("BA", "BI", "BS"):
-        return 1 + max(depth(x) for x in e[1])
-    return 1 + max(depth(x) for x in e[1:] if isinstance(x, tuple))
+        return (k, [pushdown(x, g) for x in e[1]])
+    return (k, pushdown(e[1], g), pushdown(e[2], g))
+
+
+def leaf_range(e):
+    """min / max coordinate over all box leaves of a pushed-down program"""
+    if e[0] == "B":
+        return min(e[1]), max(e[2])
+    if e[0] == "H":
+        return 0, 0
+    rs = [leaf_range(x) for x in children(e)]
+    return min(r[0] for r in rs), max(r[1] for r in rs)
+
+
+def shift_prog(e, s):
+    k = e[0]
+    if k == "B":
+        return ("B", tuple(x + s for x in e[1]), tuple(x + s for x in e[2]))
+    if k == "H":
+        return ("H", e[1], e[2], e[3] + s)
+    if k in ("BA", "BI", "BS"):
+        return (k, [shift_prog(x, s) for x in e[1]])
+    return (k, shift_prog(e[1], s), shift_prog(e[2], s))
 
 
 def has_plane(e):
-    k = e[0]
-    if k == "B":
-        return False
-    if k in ("P0", "P1", "T"):
-        return True
-    if k in ("BA", "BI", "BS"):
-        return any(has_plane(x) for x in e[1])
-    return any(has_plane(x) for x in e[1:] if isinstance(x, tuple))
+    return e[0] in ("P0", "P1", "T") or any(has_plane(x) for x in children(e))
 
 
 # |volume - voxel count| accepted as "within tolerance": 20 * tolerance (3e-12 for the {0..3}^3 lattice) * area (<= ~150)
@@ -181,7 +319,12 @@ def voxels(e):
     """Python mirror of csg_inside on the 27 voxel centres -- used ONLY to choose the violation key
     (is the operand of a TrimByPlane node empty?), never for a verdict."""
     k = e[0]
-    cs = [(x, y, z) for x in range(N) for y in range(N) for z in range(N)]
+    if has_xform(e):
+        return voxels(pushdown(e))
+    cs = [(x, y, z) for x in range(-9, 12) for y in range(-9, 12) for z in range(-9, 12)] if WIDE_VOXELS[0] else \
+         [(x, y, z) for x in range(N) for y in range(N) for z in range(N)]
+    if k == "H":
+        return frozenset(c for c in cs if (c[e[1]] >= e[3] if e[2] else c[e[1]] < e[3]))
     if k == "B":
         return frozenset(c for c in cs if all(e[1][i] <= c[i] < e[2][i] for i in range(3)))
     if k in ("+", "BA"):
@@ -206,15 +349,19 @@ def voxels(e):
     raise ValueError(k)
 
 
+WIDE_VOXELS = [False]
+
+
 def trim_of_empty(e):
-    k = e[0]
-    if k == "B":
-        return False
-    if k == "T" and not voxels(e[4]):
+    if has_xform(e) and not WIDE_VOXELS[0]:
+        WIDE_VOXELS[0] = True
+        try:
+            return trim_of_empty(e)
+        finally:
+            WIDE_VOXELS[0] = False
+    if e[0] == "T" and not voxels(e[4]):
         return True
-    if k in ("BA", "BI", "BS"):
-        return any(trim_of_empty(x) for x in e[1])
-    return any(trim_of_empty(x) for x in e[1:] if isinstance(x, tuple))
+    return any(trim_of_empty(x) for x in children(e))
 
 
 ALL_BOXES = [((x0, y0, z0), (x1, y1, z1)) for x0 in range(N) for x1 in range(x0 + 1, N + 1)
@@ -240,6 +387,77 @@ def rprog(rng, d, extras=True):
     if r < 0.94:
         return ("T", rng.randrange(3), rng.choice([1, -1]), rng.randrange(-N, N + 1), rprog(rng, d - 1, extras))
     return (rng.choice(["BA", "BI", "BS"]), [rprog(rng, d - 1, extras) for _ in range(rng.randrange(2, 5))])
+
+
+# ---- programs with lattice isometries applied to SUB-EXPRESSIONS (each op node may carry its own transform; in lazy mode
+#      they stay unevaluated CSG nodes, so collapsing of same-op chains has to compose non-commuting transforms correctly)
+def rand_xform(rng):
+    r = rng.random()
+    if r < 0.45:
+        return (rng.choice(["RX", "RY", "RZ"]), rng.choice([1, 2, 3]))
+    if r < 0.85:
+        t = [0, 0, 0]
+        for _ in range(rng.choice([1, 1, 2])):
+            t[rng.randrange(3)] = rng.choice([-3, -2, -1, 1, 2, 3])
+        return ("TR", tuple(t))
+    return (rng.choice(["MX", "MY", "MZ"]),)
+
+
+def wrap_xform(x, e):
+    return x + (e,)
+
+
+def frame_leaf(rng, F):
+    """a random box of the base grid, expressed in the coordinates of frame F (F maps base-grid coordinates to local ones)"""
+    lo, hi = rng.choice(ALL_BOXES)
+    return pushdown(("B", lo, hi), F)
+
+
+def frame_operand(rng, F):
+    if rng.random() < 0.7:
+        return frame_leaf(rng, F)
+    return (rng.choice(OPS), frame_leaf(rng, F), frame_leaf(rng, F))
+
+
+def chain_at(e):
+    """length of the chain of directly nested same-op nodes starting at e (transform nodes in between do not break it)"""
+    e = _skip_x(e)
+    if e[0] not in OPS:
+        return 0
+    return 1 + max([chain_at(c) for c in children(e) if _skip_x(c)[0] == e[0]] + [0])
+
+
+def same_op_chain(e):
+    return max([chain_at(e)] + [same_op_chain(c) for c in children(e)])
+
+
+def _skip_x(e):
+    while e[0] in XFORMS:
+        e = children(e)[0]
+    return e
+
+
+def rxprog(rng, levels, F, op):
+    """`levels` nested op nodes (mostly the SAME op, so that the lazy evaluator collapses them), the inner operand of
+    each wrapped in its own Rotate / Mirror / Translate; all leaves land in the base grid after the transforms."""
+    if levels == 0:
+        return frame_leaf(rng, F)
+    inner_op = op if rng.random() < 0.8 else rng.choice(OPS)
+    xs = []
+    if rng.random() < 0.9:
+        xs.append(rand_xform(rng))
+        if rng.random() < 0.25:
+            xs.append(rand_xform(rng))
+    Fi = F
+    for x in xs:                       # outermost transform first: e = x0(x1(inner))
+        Fi = iso_compose(iso_inverse(iso_of(wrap_xform(x, None))), Fi)
+    inner = rxprog(rng, levels - 1, Fi, inner_op)
+    for x in reversed(xs):
+        inner = wrap_xform(x, inner)
+    other = frame_operand(rng, F)
+    if op != "-" and rng.random() < 0.3:
+        return (op, other, inner)
+    return (op, inner, other)
 
 
 # ------------------------------------------------------------------ running
@@ -284,12 +502,21 @@ def run_lattice(cx, exe, drv, cases, label, cap=None):
             res[str(cid)] = {"crash": True}
     dl = []
     status = {}
+    grid = {}
     for l in out.splitlines():
         if l.startswith("MESH r"):
             cid = l.split(" ", 2)[1][1:]
             if cid in byid:
                 dl.append(l)
-                dl.append("LAT %s %d r%s %s" % (cid, N, cid, prefix(byid[cid][2])))
+                prog = byid[cid][2]
+                if has_xform(prog):
+                    # spec side: transforms pushed down to the leaves (boxes stay boxes), grid enlarged to hold every leaf
+                    spec = pushdown(prog)
+                    lo, hi = leaf_range(spec)
+                    grid[cid] = hi - lo
+                    dl.append("LATS %s %d %d r%s %s" % (cid, hi - lo, -lo, cid, prefix(shift_prog(spec, -lo))))
+                else:
+                    dl.append("LAT %s %d r%s %s" % (cid, N, cid, prefix(prog)))
                 dl.append("DROP r%s" % cid)
         elif l.startswith("ST "):
             t = l.split()
@@ -349,12 +576,12 @@ def run_lattice(cx, exe, drv, cases, label, cap=None):
             # family, one key; the witness program is in the description/replay
             r["verdict"] = "inexact"
             cx.violation("lattice-result-inexact-within-tolerance",
-                         "lattice program %s: all 27 voxel centres right but 6*volume differs from %d by %.3g (non-lattice vertex on an edge)"
+                         "lattice program %s: all voxel centres right but 6*volume differs from %d by %.3g (non-lattice vertex on an edge)"
                          % (can, want, float(r["vol6"] - want)), rep)
             nviol += 1
             continue
         r["verdict"] = "wrong"
-        cx.violation(key, "lattice program %s: %d of 27 voxel centres misclassified, volume %.6g instead of %d"
+        cx.violation(key, "lattice program %s: %d voxel centres misclassified, volume %.6g instead of %d"
                      % (can, r["bad"], float(r["vol6"] / 6), r["cnt"]), rep)
         nviol += 1
     return res, nviol
@@ -522,7 +749,7 @@ def run_kernels(cx, kexe, kdrv, exe, drv, cases, label):
         b3[cid] = (x12, x21, w03, w30)
         ex = 1 if c[1] == 0 else 0
         dl.append("KRUN %s %d %d %d %d" % (cid, ex, c[5], c[6], c[7]))
-        dl.append("W03 %s %d" % (cid, ex))
+        dl.append("W03 %s %d %d" % (cid, ex, 10 ** 9 if c[2] == "L" else 12))
         e12 = sorted(set(p[0] for p in x12))
         e21 = sorted(set(p[1] for p in x21))
         dl.append("FLOOD %s %d %d %s %d %s" % (cid, ex, len(e12), " ".join(map(str, e12)), len(e21), " ".join(map(str, e21))))
@@ -558,7 +785,7 @@ def run_kernels(cx, kexe, kdrv, exe, drv, cases, label):
         st["cases"] += 1
         bad = []
 
-        def cmp(tag, a, b, g):
+        def cmp(tag, a, b, g, allow_short=False):
             for k, (x, y) in enumerate(zip(a, b)):
                 st["entries"] += 1
                 st["nonzero"] += int(x != 0)
@@ -570,7 +797,7 @@ def run_kernels(cx, kexe, kdrv, exe, drv, cases, label):
                     else:
                         st["mismatch"] += 1
                         bad.append("%s[%d]: impl %d model %d" % (tag, k, x, y))
-            if len(a) != len(b):
+            if len(a) != len(b) and not (allow_short and 0 < len(b) < len(a)):
                 st["mismatch"] += 1
                 bad.append("%s: length impl %d model %d" % (tag, len(a), len(b)))
 
@@ -602,8 +829,8 @@ def run_kernels(cx, kexe, kdrv, exe, drv, cases, label):
             if got21 != want21:
                 st["mismatch"] += 1
                 bad.append("xv21_: impl (face,x21) %s model %s" % (got21[:6], want21[:6]))
-        cmp("w03_ vs per-vertex Kernel02 sum", w03, [int(x) for x in m.get("W03F", "").split()], m.get("GW03F", "").strip())
-        cmp("w30_ vs per-vertex Kernel02 sum", w30, [int(x) for x in m.get("W03B", "").split()], m.get("GW03B", "").strip())
+        cmp("w03_ vs per-vertex Kernel02 sum", w03, [int(x) for x in m.get("W03F", "").split()], m.get("GW03F", "").strip(), c[2] == "G")
+        cmp("w30_ vs per-vertex Kernel02 sum", w30, [int(x) for x in m.get("W03B", "").split()], m.get("GW03B", "").strip(), c[2] == "G")
         cmp("w03_ vs Winding03 model", w03, [int(x) for x in m.get("FLF", "").split()], m.get("GW03F", "").strip())
         cmp("w30_ vs Winding03 model", w30, [int(x) for x in m.get("FLB", "").split()], m.get("GW03B", "").strip())
         if bad:
@@ -682,7 +909,7 @@ def run(cx):
                 continue
             seen.add(can)
             dist[tag] = dist.get(tag, 0) + 1
-            if r and "cnt" in r and 0 < r["cnt"] < 27 and depth(e) >= 1:
+            if r and "cnt" in r and 0 < r["cnt"] and (has_xform(e) or r["cnt"] < 27) and depth(e) >= 1:
                 nontriv += 1
 
     # (0) corpus of known witnesses (always first)
@@ -736,6 +963,24 @@ def run(cx):
         res, nv = run_lattice(cx, exe, drv, chunk, "nested", cap=MAX_REPORTED)
         account(chunk, res, "nested-depth")
     cx.log("nested programs (fixed stream): %d checked" % len(progs))
+    # (ii') programs whose SUB-EXPRESSIONS carry lattice isometries (Rotate by k*90 degrees, Mirror, integer Translate):
+    #       chains of nested same-op nodes, each with its own non-commuting transform, kept as unevaluated temporaries in
+    #       lazy mode -- the CSG-tree collapsing has to compose the transforms in the right order.  Spec side: transforms
+    #       pushed down to the leaves (a box stays a box).  Fixed stream for the same reason as (ii).
+    xrng = random.Random(FIXED_XFORM_SEED)
+    xprogs = []
+    for i in range(cx.pick(NQ_XFORM, NT_XFORM)):
+        e = rxprog(xrng, xrng.choice([1, 2, 3, 3, 4]), (ID3, (0, 0, 0)), xrng.choice(OPS))
+        xprogs.append(("t%d" % i, 0 if xrng.random() < 0.8 else 1, e))
+    for s in range(0, len(xprogs), 20000):
+        chunk = xprogs[s:s + 20000]
+        res, nv = run_lattice(cx, exe, drv, chunk, "transformed", cap=MAX_REPORTED)
+        account(chunk, res, "transformed")
+    dist["transformed_same_op_depth>=3_lazy"] = sum(1 for _, m, e in xprogs if m == 0 and same_op_chain(e) >= 3)
+    cx.log("transformed programs (fixed stream): %d checked, %d with >= 3 nested same-op nodes evaluated lazily"
+           % (len(xprogs), dist["transformed_same_op_depth>=3_lazy"]))
+    if xprogs:
+        cx.sample({"program": prog_key(xprogs[0][2], xprogs[0][1])[1], "prefix": prefix(xprogs[0][2])})
     # search: a proof obligation / the translator no longer checks -> spend extra budget on seed-dependent nested programs
     # (the coincident-geometry regime every proved kernel is about) to turn the broken tie into a concrete failing input
     if cx.broken:
@@ -749,6 +994,20 @@ def run(cx):
         cx.cov["search_after_broken"] = {"programs": len(extra), "rejected": found}
     for cid, mode, e in (progs[:2] + pairs[:1]):
         cx.sample({"program": prog_key(e, mode)[1], "prefix": prefix(e)})
+    # (iv) kernel correspondence: the REAL Shadow01/Kernel02/Kernel11/Kernel12 and Boolean3's xv12_/xv21_/w03_/w30_
+    #      against the extracted exact-Q port (Geo/KernelDefs.v) and the Winding03 flood-fill model (Geo/FloodDefs.v)
+    try:
+        mlk = vp.coq_extract("ExtractC02K", ["c02k_model.ml"])
+        kdrv = vp.ocaml_build("c02k_driver", mlk + [os.path.join(vp.ROOT, "extract/c02k_driver.ml")])
+        kexe = vp.build_harness("c02_kern", "seq", link_lib=True)
+        krng = random.Random(cx.seed * 104729 + 7)
+        kst = run_kernels(cx, kexe, kdrv, exe, drv,
+                          gen_kernel_cases(krng, cx.pick(NQ_KERN[0], NT_KERN[0]), cx.pick(NQ_KERN[1], NT_KERN[1]),
+                                           cx.pick(NQ_KERN[2], NT_KERN[2])), "kernels")
+        cx.cov["kernel_correspondence"] = kst
+        cx.log("kernels: %s" % kst)
+    except vp.BuildError as ex:
+        cx.broke("corr:C02/kernel-build", "kernel harness / extracted kernel model no longer builds against this tree: %s" % str(ex)[-600:])
     # (iii) generic position
     grng = random.Random(cx.seed * 7919 + 202)
     stats = run_generic(cx, exe, drv, grng, cx.pick(NQ_GEN, NT_GEN), 200)
@@ -774,7 +1033,10 @@ def rng_depth(rng):
 
 # budgets (set from measurements on the pinned tree, see the report)
 FIXED_STREAM_SEED = 20250923
+FIXED_XFORM_SEED = 20250924
+NQ_XFORM, NT_XFORM = 4000, 60000
 NQ_PAIRS, NQ_PLANE = 5000, 1500
 NQ_NEST, NT_NEST = 4000, 80000
 NQ_GEN, NT_GEN = 24, 300
 N_SEARCH = 60000
+NQ_KERN, NT_KERN = (40, 10, 2), (600, 150, 20)   # (box pairs, operands that are Boolean results, generic pairs)
